@@ -78,6 +78,20 @@ Qed.
 Lemma le_bytes_ok n : forall x, Forall is_byte (le_bytes n x).
 Proof. induction n as [|n IH]; intros x; cbn [le_bytes]; constructor; [unfold is_byte; lia|apply IH]. Qed.
 
+Lemma nthZ_range {A} (l : list A) : forall i x, nthZ l i = Some x -> 0 <= i < len l.
+Proof.
+  induction l as [|a l IH]; intros i x H; cbn [nthZ] in H; [discriminate|]. rewrite len_cons.
+  pose proof (len_nonneg l). destruct (i =? 0) eqn:E0; [lia|]. destruct (i <? 0) eqn:E1; [discriminate|].
+  specialize (IH _ _ H). lia.
+Qed.
+
+Lemma nthZ_none {A} (l : list A) : forall i, i < 0 \/ len l <= i -> nthZ l i = None.
+Proof.
+  induction l as [|a l IH]; intros i H; cbn [nthZ]; [reflexivity|]. rewrite len_cons in H.
+  pose proof (len_nonneg l). destruct (i =? 0) eqn:E0; [lia|]. destruct (i <? 0) eqn:E1; [reflexivity|].
+  apply IH. lia.
+Qed.
+
 (** *** bytes / strings *)
 Lemma long_dec_zero r : long_dec (0 :: r) = Ok (0, r).
 Proof. reflexivity. Qed.
@@ -315,7 +329,7 @@ Proof.
     destruct l; cbn [typedl] in Ht; try contradiction. destruct Ht as (Hi63 & s0 & Hn & Ht).
     cbn [dec wire_l erase]. rewrite <- app_assoc.
     assert (Hi : in_int64 i).
-    { unfold nthZ in Hn. destruct (i <? 0) eqn:Ei; [discriminate|]. unfold in_int64. lia. }
+    { pose proof (nthZ_range _ _ _ Hn). unfold in_int64. lia. }
     rewrite long_rt by exact Hi. cbn [bind]. rewrite Hn. rewrite (IH e s0 l Ht f Hf'). reflexivity.
   - (* record *)
     destruct l as [| | | |ls]; cbn [typedl] in Ht; try contradiction.
@@ -584,11 +598,8 @@ Qed.
 Theorem union_bad_index f e bs i rest :
   in_int64 i -> (i < 0 \/ len bs <= i) -> dec (S f) e (SUnion bs) (long_enc i ++ rest) = Err.
 Proof.
-  intros Hi Hb. cbn [dec]. rewrite long_rt by exact Hi. cbn [bind]. unfold nthZ.
-  destruct (i <? 0) eqn:E; [reflexivity|].
-  destruct Hb as [Hb|Hb]; [lia|].
-  replace (nth_error bs (Z.to_nat i)) with (@None schema); [reflexivity|].
-  symmetry. apply nth_error_None. unfold len in Hb. lia.
+  intros Hi Hb. cbn [dec]. rewrite long_rt by exact Hi. cbn [bind].
+  rewrite nthZ_none by exact Hb. reflexivity.
 Qed.
 
 Theorem enum_bad_index f e n al syms d i rest :
@@ -688,4 +699,50 @@ Proof.
   intros Ht p q E Hq f a' r H.
   apply (truncated_fails n e s l Ht p q E Hq (Nat.max n f) (Nat.le_max_l _ _) a' r).
   eapply dec_fuel_mono; [apply Nat.le_max_r|exact H].
+Qed.
+
+(** one-step unfoldings of the layout typing, for examples *)
+Lemma typedl_record n e nm al fs l :
+  typedl (S n) e (SRecord nm al fs) (LRecord l) <-> Forall2 (fun f a => typedl n e (ftype f) a) fs l.
+Proof. reflexivity. Qed.
+Lemma typedl_union n e bs i l :
+  typedl (S n) e (SUnion bs) (LUnion i l) <-> i < 2 ^ 63 /\ exists s, nthZ bs i = Some s /\ typedl n e s l.
+Proof. reflexivity. Qed.
+Lemma typedl_array n e s bl :
+  typedl (S n) e (SArray s) (LArray bl) <->
+  (length bl <= n)%nat /\
+  Forall (fun b => snd b <> [] /\ len (snd b) < 2 ^ 63 /\ in_int64 (snd (fst b)) /\ Forall (typedl n e s) (snd b)) bl.
+Proof. reflexivity. Qed.
+Lemma typedl_long n e z : typedl (S n) e SLong (LLeaf (AInt z)) <-> in_int64 z.
+Proof. reflexivity. Qed.
+
+(** *** the encoding determines the value *)
+Theorem wire_injective n e s a a' : typedn n e s a -> typedn n e s a' -> wire a = wire a' -> a = a'.
+Proof.
+  intros H H' E.
+  pose proof (wire_dec n e s a H n (le_n n) []) as D. pose proof (wire_dec n e s a' H' n (le_n n) []) as D'.
+  rewrite E in D. rewrite D' in D. injection D as ->. reflexivity.
+Qed.
+
+Lemma typedn_mono : forall n e s a, typedn n e s a -> typedn (S n) e s a.
+Proof.
+  induction n as [|n IH]; intros e s a H; [destruct H|].
+  destruct s.
+  15:{ apply typedn_ref in H. apply typedn_ref. destruct H as (s0 & Hl & H). exists s0. split; [exact Hl|apply IH; exact H]. }
+  15:{ apply typedn_annot in H. apply typedn_annot. apply IH. exact H. }
+  all: destruct a; cbn [typedn] in H; try contradiction; try exact H.
+  - destruct H as [Hl H]. split; [exact Hl|]. eapply Forall_impl; [|exact H]. intros; apply IH; assumption.
+  - destruct H as [Hl H]. split; [exact Hl|]. eapply Forall_impl; [|exact H]. intros kv [Hk Hv]. split; [exact Hk|apply IH; exact Hv].
+  - destruct H as (Hi & s0 & Hn & H). split; [exact Hi|]. exists s0. split; [exact Hn|apply IH; exact H].
+  - eapply Forall2_impl'; [|exact H]. intros; apply IH; assumption.
+Qed.
+
+Lemma typedn_le n m e s a : (n <= m)%nat -> typedn n e s a -> typedn m e s a.
+Proof. induction 1 as [|m _ IH]; intros Ht; [exact Ht|]. apply typedn_mono. auto. Qed.
+
+Theorem wire_injective_typed e s a a' : typed e s a -> typed e s a' -> wire a = wire a' -> a = a'.
+Proof.
+  intros [n H] [n' H'] E. apply (wire_injective (Nat.max n n') e s); [| |exact E].
+  - eapply typedn_le; [apply Nat.le_max_l|exact H].
+  - eapply typedn_le; [apply Nat.le_max_r|exact H'].
 Qed.
